@@ -205,6 +205,40 @@ theorem batch_model_eq_spec {O : Oracles} {qy : Query} {q : AggStmt} (hq : qy.st
     (h : Spec.Agg.batch O qy q joined files = some (ro, "")) : runBatch O qy joined files none = ro :=
   batch_refines_spec hq hwf joined files h
 
+/-! ### negation witnesses of the two open findings (kernel-evaluated; the harness replays them on the implementation) -/
+
+/-- `SELECT k, COUNT(v) FROM t GROUP BY k` -/
+def d10Stmt : AggStmt :=
+  { items := [{ name := "k", kind := .groupKey (.column "k") "k", transform := none },
+              { name := "count1", kind := .count (some "v") false, transform := none }],
+    filter := none, groupBy := some [(.column "k", "k")], having := none, havingAggs := [], havingKeys := [],
+    havingVisit := [], limit := none, distinct := false }
+
+def rowKV (k : Nat) (v : Value) : Env := { table := [("k", .text [k]), ("v", v)] }
+
+/-- **D10**: on the rows (a, 1), (b, NULL) the property demands the rows `a, 1` and `b, 0`; the engine, which lists the
+groups of `group_values`, shows only `a, 1` — the group `b` (no aggregate created an entry) is dropped -/
+theorem d10_group_without_entry_dropped :
+    table {} d10Stmt [rowKV 97 (.int 1), rowKV 98 .null] = some [[.text [97], .int 1], [.text [98], .int 0]] ∧
+    (aggRun {} d10Stmt [rowKV 97 (.int 1), rowKV 98 .null] {}).bind (fun st => finalResult {} d10Stmt { agg := st }) =
+      .ok { columns := ["k", "count1"], rows := [[.text [97], .int 1]] } ∧
+    deviationClass {} d10Stmt [rowKV 97 (.int 1), rowKV 98 .null] = "D10:group-without-value-entry" :=
+  ⟨rfl, rfl, rfl⟩
+
+/-- `SELECT ARRAY_AGG(v) FROM t` -/
+def d15Stmt : AggStmt :=
+  { items := [{ name := "array_agg0", kind := .arrayAgg (.column "v"), transform := none }],
+    filter := none, groupBy := none, having := none, havingAggs := [], havingKeys := [],
+    havingVisit := [], limit := none, distinct := false }
+
+/-- **D15**: on the values NULL, 5 the property demands the array `{NULL, 5}`; the engine refuses the statement
+("cannot create array of null type") because the first value is NULL -/
+theorem d15_array_agg_first_null_refused :
+    table {} d15Stmt [rowKV 97 .null, rowKV 98 (.int 5)] = some [[.array .int [.null, .int 5]]] ∧
+    aggRun {} d15Stmt [rowKV 97 .null, rowKV 98 (.int 5)] {} = .error .cannotCreateArrayOfNullType ∧
+    deviationClass {} d15Stmt [rowKV 97 .null, rowKV 98 (.int 5)] = "D15:array_agg-first-value-null" :=
+  ⟨rfl, rfl, rfl⟩
+
 /-! ### non-vacuity -/
 
 /-- `SELECT COUNT(*) FROM t` -/
